@@ -17,7 +17,9 @@ pub struct Shared {
     pub log: Vec<(String, Vec<String>, usize)>,
     pub invocations: usize,
     pub halt_at: Option<usize>,
-    pub halt: Arc<AtomicBool>,
+    /// the embedder's own handle on the flag; `None` = the command raises the flag through
+    /// `context.env.halt` and nobody but the run's Env holds it
+    pub halt: Option<Arc<AtomicBool>>,
 }
 
 #[derive(Clone)]
@@ -37,7 +39,10 @@ impl Command for Scripted {
         let mut sh = self.shared.borrow_mut();
         sh.invocations += 1;
         if sh.halt_at == Some(sh.invocations) {
-            sh.halt.store(true, Ordering::SeqCst);
+            match &sh.halt {
+                Some(h) => h.store(true, Ordering::SeqCst),
+                None => ctx.env.halt.store(true, Ordering::SeqCst),
+            }
         }
         sh.log.push((self.name.clone(), ctx.arguments.clone(), ctx.line));
         match sh.queue.pop_front() {
@@ -90,7 +95,12 @@ impl std::io::Write for Sink {
 pub fn run_scripted(text: &str, file: Option<&str>, names: &[String], queue: &str, halt_at: Option<usize>, vars: &[(String, String)]) -> String {
     let halt = Arc::new(AtomicBool::new(false));
     let q: VecDeque<CommandResult> = if queue == "-" || queue.is_empty() { VecDeque::new() } else { queue.split(',').map(|t| dec_result(t).unwrap()).collect() };
-    let shared = Rc::new(RefCell::new(Shared { queue: q, log: vec![], invocations: 0, halt_at, halt: halt.clone() }));
+    // who holds the flag: 0 = the embedder keeps a handle and raises it through that; 1 = the
+    // command raises it through `context.env.halt` while the embedder still holds a handle;
+    // 2 = through `context.env.halt`, the Env was built without an embedder flag (nobody else
+    // holds it); 3 = the same with `run_script(.., None)` (default Env; texts without `!print`)
+    let halt_mode = if text.contains("!print") { (crate::hash_str(text) / 4) % 3 } else { (crate::hash_str(text) / 4) % 4 };
+    let shared = Rc::new(RefCell::new(Shared { queue: q, log: vec![], invocations: 0, halt_at, halt: if halt_mode == 0 { Some(halt.clone()) } else { None } }));
     let mut context = Context::new();
     for n in names {
         context.commands.set(Box::new(Scripted { name: n.clone(), shared: shared.clone() })).unwrap();
@@ -102,15 +112,18 @@ pub fn run_scripted(text: &str, file: Option<&str>, names: &[String], queue: &st
     // polls whichever writers are given (scripted commands print nothing; a shape without `out`
     // is only used for texts without a `!print` line)
     let shape = if text.contains("!print") { 0 } else { crate::hash_str(text) % 4 };
+    let flag = |keep: bool| if keep { Some(halt.clone()) } else { None };
+    let keep = halt_mode <= 1;
     let env = match shape {
-        0 => Env::new(Some(Box::new(Sink)), Some(Box::new(Sink)), Some(halt.clone())),
-        1 => Env::new(Some(Box::new(Sink)), None, Some(halt.clone())),
-        2 => Env::new(None, Some(Box::new(Sink)), Some(halt.clone())),
-        _ => Env::new(None, None, Some(halt.clone())),
+        0 => Env::new(Some(Box::new(Sink)), Some(Box::new(Sink)), flag(keep)),
+        1 => Env::new(Some(Box::new(Sink)), None, flag(keep)),
+        2 => Env::new(None, Some(Box::new(Sink)), flag(keep)),
+        _ => Env::new(None, None, flag(keep)),
     };
+    let env = if halt_mode == 3 { None } else { Some(env) };
     let res = match file {
-        Some(f) => duckscript::runner::run_script_file(f, context, Some(env)),
-        None => duckscript::runner::run_script(text, context, Some(env)),
+        Some(f) => duckscript::runner::run_script_file(f, context, env),
+        None => duckscript::runner::run_script(text, context, env),
     };
     let sh = shared.borrow();
     let log = sh.log.iter().map(|(n, a, l)| format!("{}@{}{}", enc_str(n), l, enc_list(a))).collect::<Vec<_>>().join(";");
